@@ -37,7 +37,7 @@ def build(name, workdir=None):
     fake = os.path.join(common.VERIF, 'fake', FAKE[name])
     cfile = os.path.join(pkg, f'{name}.c')
     r = subprocess.run(
-        [common.PY, '-m', 'cython', '-3', '-I', pkg,
+        [common.PY, '-m', 'cython', '-3', '-I', pkg, '-I', tmp,
          os.path.join(pkg, f'{name}.pyx'), '-o', cfile],
         capture_output=True, text=True, cwd=tmp)
     if r.returncode:
